@@ -49,7 +49,8 @@ def impl_eval(case):
                 continue
             try:
                 bb = core.make_bb(names, keyed(case["base"]))
-                facts = [core.f_pysmt(f, names) for f in case["facts"]] if uf else None
+                forms = case.get("fact_forms") or ["pysmt"] * len(case["facts"])
+                facts = [core.fact_arg(f, names, fm) for f, fm in zip(case["facts"], forms)] if uf else None
                 with warnings.catch_warnings():
                     warnings.simplefilter("ignore")
                     d = consistency_diagnostics(bb, extended=ext, uses_facts=uf, facts=facts, on_inconsistent="silent")
@@ -230,7 +231,7 @@ def run(ctx):
         keys = rng.sample(range(1, 40), len(conds)) if rng.random() < 0.3 else list(range(1, len(conds) + 1))
         facts = [core.gen_formula(rng, n, 2, 0.05) for _ in range(rng.randint(0, 3))]
         cases.append({"n": n, "weakly": rng.random() < 0.5, "base": [[kk, c[0], c[1]] for kk, c in zip(keys, conds)],
-                      "facts": facts, "ask_ops": rng.random() < 0.35})
+                      "facts": facts, "fact_forms": [rng.choice(["pysmt", "text", "textmin"]) for _ in facts], "ask_ops": rng.random() < 0.35})
     impls, models = evaluate(cases, ctx.procs)
     for c, impl, model in zip(cases, impls, models):
         ctx.evaluations += 2 + len(model["diag"]) + len(impl["ops"])
